@@ -1,5 +1,6 @@
 import ProductMD.Proofs.C05Images
 import ProductMD.Proofs.C05Rpms
+import ProductMD.Proofs.C05CI
 import ProductMD.Properties.C03
 import ProductMD.Properties.C02
 import ProductMD.Properties.C09
@@ -226,13 +227,103 @@ theorem C05_rpms_faithful_witness :
 
 end Rpms
 
-/-! ## composeinfo (gates; more below) -/
+/-! ## composeinfo -/
+section ComposeInfo
+open PM.CI
 
-/-- the composeinfo gates at the boundary versions, as the source states them now -/
+/-- the four composeinfo gates as comparisons of pairs of naturals, for every version: `Compose.deserialize_0_3` below 0.3,
+`Release.deserialize_0_3` (`product` section) up to 0.3, UID-prefix forest below 1.0 -/
+theorem C05_ci_gates (v : Nat × Nat) :
+    Legacy.gatesOf v = .ok ⟨PM.verLt v (0, 3), PM.verLe v (0, 3), PM.verLt v (1, 0), PM.verLt v (1, 0)⟩ := rfl
+
+/-- … at the boundary versions -/
 theorem C05_ci_gates_at_boundaries :
-    CI.Legacy.gatesOf (0, 2) = .ok ⟨true, true, true, true⟩ ∧ CI.Legacy.gatesOf (0, 3) = .ok ⟨false, true, true, true⟩
-    ∧ CI.Legacy.gatesOf (0, 4) = .ok ⟨false, false, true, true⟩ ∧ CI.Legacy.gatesOf (0, 9) = .ok ⟨false, false, true, true⟩
-    ∧ CI.Legacy.gatesOf (1, 0) = .ok CI.Legacy.Gates.current ∧ CI.Legacy.gatesOf (2, 0) = .ok CI.Legacy.Gates.current := by
+    Legacy.gatesOf (0, 2) = .ok ⟨true, true, true, true⟩ ∧ Legacy.gatesOf (0, 3) = .ok ⟨false, true, true, true⟩
+    ∧ Legacy.gatesOf (0, 4) = .ok ⟨false, false, true, true⟩ ∧ Legacy.gatesOf (0, 9) = .ok ⟨false, false, true, true⟩
+    ∧ Legacy.gatesOf (1, 0) = .ok Legacy.Gates.current ∧ Legacy.gatesOf (1, 1) = .ok Legacy.Gates.current
+    ∧ Legacy.gatesOf (2, 0) = .ok Legacy.Gates.current := by
   decide
+
+/-- the legacy-aware reader extends the C01 reader: same answer wherever that one answers (formats >= 1.0) -/
+theorem C05_ci_extends_C01 (doc : PyVal) (ci : ComposeInfo) (h : CI.deserialize doc = .ok ci) :
+    Legacy.deserialize doc = .ok ci := Legacy.deserialize_of_deserialize doc ci h
+
+/-- **loaded is normal (partial: sections and key structure)** — whatever version the document had: the compose and
+release sections validate, and every variant container (top level and below every variant, at any depth; explicit
+child lists and UID-prefix scan alike) is keyed by id with no key twice — the hypothesis `WellKeyed` of C01.
+Not proved here: that every *variant* validates against its parent (the reader runs that validator, the statement needs
+the forest invariant of C11), and the sort order of children (document order for the prefix scan; the writer sorts). -/
+theorem C05_ci_loaded_is_normal_partial (doc : PyVal) (ci : ComposeInfo) (h : Legacy.deserialize doc = .ok ci) :
+    validateClass "composeinfo.Compose" (composeObj ci.compose) = .ok ()
+    ∧ validateClass "composeinfo.Release" (releaseObj ci.release) = .ok ()
+    ∧ WellKeyed ci :=
+  ⟨(Legacy.deserialize_sections_valid doc ci h).1, (Legacy.deserialize_sections_valid doc ci h).2,
+   Legacy.deserialize_wellKeyed doc ci h⟩
+
+/--
+**idempotent (partial: hypotheses `UidsDistinct` and "the writer accepts it").**  A compose description loaded from a
+document of any version, once the current writer has written it as document `j`: the *current* reader (`CI.deserialize`,
+no legacy branch: conversion happens exactly once) — and therefore also the legacy-aware one — reads `j` back as the normal
+form of the loaded object (children in sorted order, nothing else changes: `C01_norm_*`), and writing that again gives
+the very same document.  `UidsDistinct` is decidable; without it the writer refuses (`C01_duplicate_uids_agree`).
+-/
+theorem C05_ci_idempotent_partial (doc j : PyVal) (x : ComposeInfo) (h : Legacy.deserialize doc = .ok x)
+    (hu : UidsDistinct x) (hs : serialize x = .ok j) :
+    CI.deserialize j = .ok x.norm ∧ Legacy.deserialize j = .ok x.norm ∧ serialize x.norm = .ok j := by
+  have hk := Legacy.deserialize_wellKeyed doc x h
+  have h1 := C01_readback x j hk hu hs
+  exact ⟨h1, Legacy.deserialize_of_deserialize j _ h1, C01_fixpoint x j hk hu hs⟩
+
+/-- **faithful, `product` section (≤ 0.3)**: what is read has `internal = False`, whatever the section says -/
+theorem C05_ci_faithful_product_not_internal (holder : PyVal) (r : Release) (h : Legacy.releaseDe03 holder = .ok r) :
+    r.internal = false := (Legacy.releaseDe03_valid holder r h).2
+
+/-- a 0.2 document: no date/respin, `product` section without type/internal, children by UID prefix only, a layered
+product with its own `product` section -/
+def wCI02 : PyVal :=
+  let paths : PyVal := .dict [(k%"os_tree", .dict [(k%"x86_64", .str k%"S/x86_64/os")])]
+  let var (id uid ty : Str) (extra : List (Str × PyVal)) : PyVal :=
+    .dict ([(k%"id", .str id), (k%"uid", .str uid), (k%"name", .str id), (k%"type", .str ty),
+            (k%"arches", .list [.str k%"x86_64"]), (k%"paths", paths)] ++ extra)
+  .dict [(k%"header", .dict [(k%"version", .str k%"0.2")]),
+    (k%"payload", .dict [
+      (k%"compose", .dict [(k%"id", .str k%"F-22-20150522.n.3"), (k%"type", .str k%"whatever")]),
+      (k%"product", .dict [(k%"name", .str k%"Fedora"), (k%"short", .str k%"F"), (k%"version", .str k%"22"), (k%"internal", .bool true)]),
+      (k%"variants", .dict [
+        (k%"Server", var k%"Server" k%"Server" k%"variant" []),
+        (k%"Server-optional", var k%"optional" k%"Server-optional" k%"optional" []),
+        (k%"Server-LP", var k%"LP" k%"Server-LP" k%"layered-product"
+            [(k%"product", .dict [(k%"name", .str k%"L"), (k%"short", .str k%"l"), (k%"version", .str k%"1"), (k%"type", .str k%"EUS")])]),
+        (k%"Client-X", var k%"ClientX" k%"Client-X" k%"variant" [])])])]
+
+/-- **faithful and idempotent, on a witness** (the model performs the whole upgrade): date/type/respin from the id, type
+`ga`, not internal, forest rebuilt from the prefixes (two children under `Server` in document order, the dashed `Client-X` stays top level),
+the layered product's own release lower-cased; second document identical to the first -/
+theorem C05_ci_upgrade_witness :
+    (match Legacy.upgradeCycle wCI02 with
+     | .ok (x, d1, x2, d2) =>
+       x.compose.date == k%"20150522" && x.compose.type == k%"nightly" && x.compose.respin == 3
+       && x.release.type == k%"ga" && x.release.internal == false
+       && x.variants.map Variant.uid == [k%"Client-X", k%"Server"]
+       && (x.variants.map fun v => v.kids.map Variant.uid) == [[], [k%"Server-optional", k%"Server-LP"]]
+       && (x.variants.flatMap fun v => v.kids.map fun c => c.release.map (·.type)) == [none, some k%"eus"]
+       && PyVal.beq (PyVal.canon d1) (PyVal.canon d2) && decide (UidsDistinct x) && decide (x2.norm.variants.length = 2)
+     | .error _ => false) = true := by decide +kernel
+
+/-- **F32 witness**: a three-level forest related only by UID prefixes is refused (the grandchild is also taken for a
+child of the top-level variant and fails the UID alignment), although `rsplit` names its parent unambiguously -/
+theorem C05_ci_legacy_depth3_refused_witness :
+    let var (id uid : Str) : PyVal :=
+      .dict [(k%"id", .str id), (k%"uid", .str uid), (k%"name", .str id), (k%"type", .str k%"variant"),
+             (k%"arches", .list [.str k%"x86_64"]), (k%"paths", .dict [])]
+    let doc : PyVal := .dict [(k%"header", .dict [(k%"version", .str k%"0.9")]),
+      (k%"payload", .dict [
+        (k%"compose", .dict [(k%"id", .str k%"F-22-20150522.0"), (k%"type", .str k%"production"), (k%"date", .str k%"20150522"), (k%"respin", .int 0)]),
+        (k%"release", .dict [(k%"name", .str k%"Fedora"), (k%"short", .str k%"F"), (k%"version", .str k%"22")]),
+        (k%"variants", .dict [(k%"A", var k%"A" k%"A"), (k%"A-B", var k%"B" k%"A-B"), (k%"A-B-C", var k%"C" k%"A-B-C")])])]
+    (match Legacy.deserialize doc with | .error .valueError => true | _ => false) = true
+    ∧ Legacy.legacyHead k%"A-B-C" = some k%"A-B" := by decide +kernel
+
+end ComposeInfo
 
 end PM
